@@ -94,11 +94,20 @@ theorem C18_expand_is_hull (i : Ival α) (v : α) (h : i.lo ≤ i.hi) :
   · push Not at h1 h2; exact ⟨(min_eq_left h2).symm, (max_eq_left h1).symm⟩
 
 /-- T18.c  folding an outlier into a 1-dim tree changes no range (neither snapped nor tight) of the node. -/
-theorem C18_outlier_keeps_ranges (c : FCtx α) (fuel : Nat) (n : Node α) (row : Nat) :
-    (addOutlier c fuel n row).data.snapped = n.data.snapped ∧ (addOutlier c fuel n row).data.actual = n.data.actual := by
+theorem C18_outlier_keeps_ranges (c : FCtx α) (fuel : Nat) (n n' : Node α) (row : Nat) (h : addOutlier c fuel n row = some n') :
+    n'.data.snapped = n.data.snapped ∧ n'.data.actual = n.data.actual := by
   cases fuel with
-  | zero => simp [addOutlier]
-  | succ f => cases n <;> simp [addOutlier, Node.data]
+  | zero => simp [addOutlier] at h
+  | succ f =>
+    cases n with
+    | leaf d s rows => simp only [addOutlier, Option.some.injEq] at h; subst h; exact ⟨rfl, rfl⟩
+    | branch d s ch =>
+      rw [addOutlier] at h
+      split at h
+      · cases h
+      · simp only [Option.map_eq_some_iff] at h
+        obtain ⟨_, _, rfl⟩ := h
+        exact ⟨rfl, rfl⟩
 
 /-! ## The global invariant (every node of every tree, every insertion history) -/
 
